@@ -210,13 +210,18 @@ func (w *bWorld) mintFamily() {
 			continue
 		}
 		nd := 1
-		if r.Chance(1, 5) {
+		if r.Chance(1, 2) {
 			nd = 2 // two candidates for one ticket
+			o.count("pool.twoCandidates")
 		}
 		for k := 0; k < nd; k++ {
 			var extra []macaroon.Caveat
 			if r.Chance(1, 2) {
 				extra = append(extra, w.cav())
+			}
+			if k == 1 { // the second candidate always imposes something the first does not
+				ro := pick(r, []resset.Action{resset.ActionRead, resset.ActionRead | resset.ActionWrite})
+				extra = append(extra, &ro)
 			}
 			if r.Chance(1, 4) {
 				a := auth.FlyioUserID(uint64(7 + k))
